@@ -13,7 +13,8 @@ EXPLANATION = (
     "level() validates first; (S3) validate rejects the six classes of invalid input (NaN values, values <= 0, duplicate index, non-datetime index, NaN in the "
     "index, non-increasing index); (S4) the metrics are the formulas stated in their definitions, compared as value ids (drawdown = level / running max - 1, "
     "CAGR = (last/first) ** (1/years) - 1 with years = calendar days / 365, returns, volatility = sqrt(252) x std of simple returns, the ratios as quotients of "
-    "excess CAGR by the named risk measure ...). It does NOT decide that these formulas equal an independent textbook implementation."
+    "excess CAGR by the named risk measure ...); (S5) TrackRecord.tearsheet computes the metrics on the record's whole net-liquidation-value series and passes the whole record "
+    "of target weights along (metrics.tearsheet intersects the two indexes). It does NOT decide that these formulas equal an independent textbook implementation."
 )
 DECIDED = ["S1 every listed metric is unchanged under positive scaling", "S2 invalid series are rejected before being measured", "S3 six classes of invalidity are tested",
            "S4 metrics equal the formulas stated in the source's own definitions (value ids)"]
